@@ -5,8 +5,9 @@ import ast
 
 from ..flow import call_name, dotted, norm, writes_in
 from ..index import AnalysisError, walk_local
-from ..lib import cfg_of, defs_of, edge_leads_only_to_raise, live, nodes_with, undominated, witness
+from ..lib import cfg_of, defs_of, edge_leads_only_to_raise, find, has, inlined, live, nodes_with, undominated, witness
 from ..tags import Tagger
+from .. import shape
 
 PQ = "pint.facets.plain.quantity"
 
@@ -27,6 +28,38 @@ ARITH = [("_add_sub", False), ("_iadd_sub", True), ("__floordiv__", False), ("__
 
 
 
+# ---------------------------------------------------------------- role-based helpers (no names of locals, no polarity)
+def _derives_from(roots, name: str) -> bool:
+    """some root of a value (Defs.roots) is the parameter `name` or one of its attributes"""
+    return any(r == name or r.startswith(name + ".") for r in roots)
+
+
+def _is(pattern: str, e: ast.AST, fn: ast.AST = None) -> bool:
+    """`e` matches the pattern (shape.match syntax) as written or, inside `fn`, after resolving local temporaries"""
+    if shape.match(pattern, e) is not None:
+        return True
+    return fn is not None and shape.match(pattern, shape.resolve(e, fn)) is not None
+
+
+def _edges(cfg, fn, pattern: str, want: bool) -> list:
+    """CFG edges (test id, label) on which the atomic condition `pattern` is known to be `want`, whatever the spelling
+    of the test (`if c: raise` / `if not c: ... else: raise`, conjunctions, a temporary holding the condition)."""
+    return sorted(set(shape.guard_edges(cfg, lambda a: _is(pattern, a, fn), want)))
+
+
+def _refused(ck, fi, cfg, pattern: str, refused_when: bool, rule, key_present, key_raises, ok_present, bad_present, ok_raises, bad_raises):
+    """The condition `pattern` is tested and every edge on which it is `refused_when` leads only to a raise."""
+    edges = _edges(cfg, fi.node, pattern, refused_when)
+    ck.check(bool(edges), rule, key_present, fi.loc(), ok_present, bad_present)
+    for (t, lab) in edges:
+        p = edge_leads_only_to_raise(cfg, t, lab)
+        ck.check(p is None, rule, key_raises(cfg.nodes[t]), fi.loc(cfg.nodes[t].ast), ok_raises, bad_raises, witness(cfg, p))
+    return edges
+
+
+EXPONENT_VALUES = ("0", "_to_magnitude(other, *_R, **_K)", "other.to_root_units().magnitude", "other.to_root_units()._magnitude", "other.m_as('')", "other.m_as(self.UnitsContainer())")
+
+
 def exponent_rule(ck, ix):
     """__pow__/__ipow__: the exponent may itself be a quantity.  (a) the 0/1 shortcuts compare the exponent *as given*
     (`other == 1` goes through Quantity.__eq__ and is unit aware); comparing its bare magnitude would take 1 percent or
@@ -45,34 +78,37 @@ def exponent_rule(ck, ix):
                 if not consts or not others:
                     continue
                 o = others[0]
-                roots = defs.roots(o)
-                if not any(r == "other" or r.startswith("other.") for r in roots):
+                if not _derives_from(defs.roots(o), "other"):
                     continue
                 n += 1
                 ck.check(isinstance(o, ast.Name) and o.id == "other", "G-TAG", f"{q}|exponent-shortcut-is-unit-aware|{norm(c)}", fi.loc(c), "the exponent is compared as given (unit aware)",
                          f"`{norm(c)}` compares the bare magnitude of the exponent: an exponent of 1 percent (or 1 second) is taken for the number 1")
         if n == 0:
             ck.note(f"{q}: no 0/1 shortcut on the exponent")
+        # candidates by role: a power whose base is the units / magnitude of self (directly or through a local that was
+        # bound to self or to a conversion of self)
+        field_of_self = lambda e: any(isinstance(x, ast.Attribute) and x.attr in ("_units", "_magnitude") for x in ast.walk(e)) and _derives_from(defs.roots(e), "self")
         exps = []
         for b in walk_local(fi.node):
-            if isinstance(b, ast.BinOp) and isinstance(b.op, ast.Pow) and ("_units" in norm(b.left) or "_magnitude" in norm(b.left)) and "self" in norm(b.left):
+            if isinstance(b, ast.BinOp) and isinstance(b.op, ast.Pow) and field_of_self(b.left):
                 exps.append((b, b.right))
-            if isinstance(b, ast.AugAssign) and isinstance(b.op, ast.Pow) and "self._magnitude" in norm(b.target):
+            if isinstance(b, ast.AugAssign) and isinstance(b.op, ast.Pow) and norm(b.target) == "self._magnitude":
                 exps.append((b, b.value))
         for b, x in exps:
-            if not isinstance(x, ast.Name) or x.id in defs.params:
+            if isinstance(x, ast.Name) and x.id in defs.params:
                 continue  # the raw parameter is only used on paths where it was shown to be a bare number/array
-            vals = sorted({norm(v) for (v, kind, st) in defs.defs.get(x.id, []) if v is not None})
-            allowed = all(v == "0" or v.startswith("_to_magnitude(other") or v in ("other.to_root_units().magnitude", "other.to_root_units()._magnitude", "other.m_as('')", "other.m_as(self.UnitsContainer())") for v in vals)
-            ck.check(bool(vals) and allowed, "G-TAG", f"{q}|exponent-is-root-magnitude-or-bare-number|{norm(b)[:40]}", fi.loc(b), f"exponent in {vals}",
-                     f"the exponent `{x.id}` of `{norm(b)}` is one of {vals}: a quantity exponent must be reduced to its dimensionless root-unit magnitude (1 percent -> 0.01), a bare number coerced with _to_magnitude")
+            # every value the exponent can hold (all bindings of the local, or the expression itself)
+            vals = [v for (v, kind, st) in defs.defs.get(x.id, []) if v is not None] if isinstance(x, ast.Name) else [x]
+            shown = sorted({norm(v) for v in vals})
+            allowed = all(any(_is(pt, v) for pt in EXPONENT_VALUES) for v in vals)
+            ck.check(bool(vals) and allowed, "G-TAG", f"{q}|exponent-is-root-magnitude-or-bare-number|{norm(b)[:40]}", fi.loc(b), f"exponent in {shown}",
+                     f"the exponent `{norm(x)}` of `{norm(b)}` is one of {shown}: a quantity exponent must be reduced to its dimensionless root-unit magnitude (1 percent -> 0.01), a bare number coerced with _to_magnitude")
+        ck.floor("G-TAG", len(exps), 1, f"powers of self's magnitude/units in {q}")
         # a dimensional exponent raises
         cfg = cfg_of(fi)
-        tests = [nd.id for nd in cfg.nodes if nd.kind == "test" and norm(nd.ast) == "not getattr(other, 'dimensionless', True)"]
-        ck.check(bool(tests), "G-DOM", f"{q}|dimensional-exponent-tested", fi.loc(), "a dimensional exponent is detected", f"{q} no longer tests for a dimensional exponent")
-        for t in tests:
-            p = edge_leads_only_to_raise(cfg, t, "t")
-            ck.check(p is None, "G-DOM", f"{q}|dimensional-exponent-raises|L{cfg.nodes[t].lineno - fi.node.lineno}", fi.loc(cfg.nodes[t].ast), "a dimensional exponent raises DimensionalityError", "a dimensional exponent does not raise", witness(cfg, p))
+        _refused(ck, fi, cfg, "getattr(other, 'dimensionless', True)", False, "G-DOM", f"{q}|dimensional-exponent-tested",
+                 lambda nd: f"{q}|dimensional-exponent-raises|L{nd.lineno - fi.node.lineno}", "a dimensional exponent is detected", f"{q} no longer tests for a dimensional exponent",
+                 "a dimensional exponent raises DimensionalityError", "a dimensional exponent does not raise")
 
 
 def scalar_coercion_rule(ck, ix):
@@ -84,16 +120,17 @@ def scalar_coercion_rule(ck, ix):
         ck.analysed(fi)
         cfg = cfg_of(fi)
         rets = [r for r in walk_local(fi.node) if isinstance(r, ast.Return) and r.value is not None]
+        vals = {id(r): shape.resolve(r.value, fi.node) for r in rets}
         for r in rets:
-            v = r.value
+            v = vals[id(r)]
             ok = isinstance(v, ast.Call) and call_name(v) == fn and len(v.args) == 1 and norm(v.args[0]) in (
                 "self._convert_magnitude_not_inplace(UnitsContainer())", "self._convert_magnitude_not_inplace(self.UnitsContainer())", "self.m_as('')", "self.m_as(UnitsContainer())", "self.to('').magnitude")
             ck.check(ok, "G-TAG", f"PlainQuantity.{name}|value-in-no-units", fi.loc(r), f"{fn}(magnitude converted to no units)",
                      f"`{norm(r)}`: {fn}() of a dimensionless quantity must use the magnitude converted to no units (1 km/m -> 1000, 180 degree -> pi), not the magnitude as stored")
-        gates = [n.id for n in cfg.nodes if n.kind == "test" and norm(n.ast) == "self.dimensionless"]
-        ck.check(bool(gates) and all(edge_leads_only_to_raise(cfg, g, "f") is None for g in gates), "G-DOM", f"PlainQuantity.{name}|dimensional-quantity-raises", fi.loc(), "a dimensional quantity raises DimensionalityError",
+        gates = _edges(cfg, fi.node, "self.dimensionless", False)
+        ck.check(bool(gates) and all(edge_leads_only_to_raise(cfg, g, lab) is None for g, lab in gates), "G-DOM", f"PlainQuantity.{name}|dimensional-quantity-raises", fi.loc(), "a dimensional quantity raises DimensionalityError",
                  f"{name} no longer raises for a quantity that is not dimensionless")
-        shapes[name] = [norm(r.value.args[0]) if isinstance(r.value, ast.Call) and r.value.args else norm(r.value) for r in rets]
+        shapes[name] = [norm(v.args[0]) if isinstance(v, ast.Call) and v.args else norm(v) for v in (vals[id(r)] for r in rets)]
     ck.check(len({tuple(v) for v in shapes.values()}) == 1, "G-TWIN", "PlainQuantity.__int__/__float__/__complex__|siblings-agree", ix.func(PQ, "PlainQuantity.__float__").loc(), "the three coercions take the same value", f"the scalar coercions disagree: {shapes}")
 
 def run(ck, ix, tier):
@@ -147,15 +184,18 @@ def run(ck, ix, tier):
         rt_ = _s6.rnorm(b.right, fi.node)
         ck.check(norm(b.left) == "other" and rt_.endswith("magnitude") and "to_root_units()" in rt_ and "self" in rt_, "G-PROV", "PlainQuantity.__rpow__|other**self", fi.loc(b), "other ** self (dimensionless, root units)", f"`{norm(b)}` is not other ** (root-unit magnitude of self)")
     cfg = cfg_of(fi)
-    gates = [n.id for n in cfg.nodes if n.kind == "test" and norm(n.ast) == "not self.dimensionless"]
-    for g in gates:
-        p = edge_leads_only_to_raise(cfg, g, "t")
+    gates = _edges(cfg, fi.node, "self.dimensionless", False)
+    for g, lab in gates:
+        p = edge_leads_only_to_raise(cfg, g, lab)
         ck.check(p is None, "G-DOM", "PlainQuantity.__rpow__|exponent-must-be-dimensionless", fi.loc(cfg.nodes[g].ast), "dimensional exponent raises", "a dimensional exponent does not raise", witness(cfg, p))
     ck.check(bool(gates), "G-DOM", "PlainQuantity.__rpow__|dimensionless-test", fi.loc(), "exponent tested for dimensionless", "__rpow__ no longer tests that the exponent is dimensionless")
-    ck.check("self.to_root_units()" in norm(fi.node), "G-TAG", "PlainQuantity.__rpow__|exponent-in-root-units", fi.loc(), "exponent taken in root units", "__rpow__ no longer converts the exponent to root units (percent, etc.)")
+    ck.check(has(ix, fi, "self.to_root_units()"), "G-TAG", "PlainQuantity.__rpow__|exponent-in-root-units", fi.loc(), "exponent taken in root units", "__rpow__ no longer converts the exponent to root units (percent, etc.)")
     fi = ix.func(PQ, "PlainQuantity.__rsub__")
-    src = norm(fi.node)
-    ck.check("return -self._add_sub(other, operator.sub)" in src, "G-PROV", "PlainQuantity.__rsub__|negated-difference", fi.loc(), "other - self == -(self - other)", "__rsub__ is no longer -(self - other)")
+    # every value __rsub__ returns that involves the difference is -(self - other)
+    fn_ = inlined(ix, fi).node
+    rets = [shape.resolve(r.value, fn_) for r in shape.returns_of(fn_)]
+    diffs = [v for v in rets if any(isinstance(c, ast.Call) and call_name(c) == "_add_sub" for c in ast.walk(v))]
+    ck.check(bool(diffs) and all(_is("-self._add_sub(other, operator.sub)", v) for v in diffs), "G-PROV", "PlainQuantity.__rsub__|negated-difference", fi.loc(), "other - self == -(self - other)", "__rsub__ is no longer -(self - other)")
     ci = ix.cls(PQ, "PlainQuantity")
     for alias, tgt in (("__radd__", "__add__"), ("__rmul__", "__mul__")):
         a = ci.aliases.get(alias)
@@ -178,12 +218,17 @@ def run(ck, ix, tier):
                      f"{m}: the fallback for non-array magnitudes does not use the functional twin with the matching operator")
     fi = ix.func(PQ, "PlainQuantity.__truediv__")
     ck.analysed(fi)
-    tests = [t for t in walk_local(fi.node) if isinstance(t, ast.If)]
-    ok = False
-    for t in tests:
-        tt = t.test
-        if isinstance(tt, ast.BoolOp) and isinstance(tt.op, ast.Or) and len(tt.values) == 2 and all("int" in norm(v) for v in tt.values) and "self" in norm(tt.values[0]) and "other" in norm(tt.values[1]):
-            ok = any(isinstance(c, ast.Call) and call_name(c) == "_mul_div" and "_truedivide_cast_int" in norm(c) for c in ast.walk(t))
+    # by role: the plain `operator.truediv` division is reached only when neither operand has an int magnitude, every
+    # other division goes through _truedivide_cast_int (whatever the shape of the test that separates the two)
+    def int_magnitude_of(who):
+        def pred(a_):
+            m_ = shape.match("isinstance(_X, int)", a_) or shape.match("isinstance(_X, int)", shape.resolve(a_, fi.node))
+            return m_ is not None and who in m_["_X"] and any(f".{attr}" in m_["_X"] or f"'{attr}'" in m_["_X"] for attr in ("m", "magnitude", "_magnitude"))
+        return pred
+    divs_ = [c for c in walk_local(fi.node) if isinstance(c, ast.Call) and call_name(c) == "_mul_div" and len(c.args) >= 2]
+    cast_ = [c for c in divs_ if _is("self._truedivide_cast_int", c.args[1], fi.node)]
+    plain_ = [c for c in divs_ if c not in cast_]
+    ok = bool(cast_) and all(shape.holds_at(c, fi.node, int_magnitude_of("self"), False) and shape.holds_at(c, fi.node, int_magnitude_of("other"), False) for c in plain_)
     ck.check(ok, "G-PROV", "PlainQuantity.__truediv__|int-cast-if-either-operand-is-int", fi.loc(),
              "an int magnitude on either side is divided in the registry's numeric type",
              "__truediv__ no longer routes through _truedivide_cast_int when *either* operand has an int magnitude (int/int would become a float in Decimal/Fraction registries)")
@@ -225,18 +270,25 @@ def run(ck, ix, tier):
     for q in ("PlainQuantity._add_sub", "PlainQuantity._iadd_sub"):
         fi = ix.func(PQ, q)
         cfg = cfg_of(fi)
-        bare = [n.id for n in cfg.nodes if n.kind == "test" and norm(n.ast) == "not self._check(other)"]
+        fn = fi.node
+        checked = lambda a_: _is("self._check(other)", a_, fn)
+        zero = lambda a_: _is("zero_or_nan(other, True)", a_, fn)
+        dimless = lambda a_: _is("self.dimensionless", a_, fn)
+        bare = shape.guard_edges(cfg, checked, False)
         ck.check(bool(bare), "G-DOM", f"{q}|registry-check-first", fi.loc(), "operands are checked with self._check(other)", "the self._check(other) test is gone")
-        ztests = [n.id for n in cfg.nodes if n.kind == "test" and norm(n.ast) == "zero_or_nan(other, True)"]
-        dtests = [n.id for n in cfg.nodes if n.kind == "test" and norm(n.ast) == "self.dimensionless"]
-        ck.check(bool(ztests) and bool(dtests), "G-DOM", f"{q}|bare-number-guards-present", fi.loc(), "bare numbers guarded by zero_or_nan / dimensionless", "the zero_or_nan / dimensionless guards for bare numbers are gone")
-        for d in dtests:
-            p = edge_leads_only_to_raise(cfg, d, "f")
+        # by role: where `other` is not a quantity of this registry, the operator is applied only to a zero/NaN number or
+        # by a dimensionless quantity; what is left (dimensional quantity, non-zero number) raises
+        combos = [c for c in walk_local(fn) if isinstance(c, ast.Call) and isinstance(c.func, ast.Name) and c.func.id == "op" and shape.holds_at(c, fn, checked, False)]
+        unguarded = [c for c in combos if not (shape.holds_at(c, fn, zero, True) or shape.holds_at(c, fn, dimless, True))]
+        ck.check(bool(combos) and not unguarded, "G-DOM", f"{q}|bare-number-guards-present", fi.loc(unguarded[0]) if unguarded else fi.loc(), "bare numbers guarded by zero_or_nan / dimensionless",
+                 "the zero_or_nan / dimensionless guards for bare numbers are gone" + (f": `{norm(unguarded[0])[:80]}` combines the magnitude with a bare number that is neither zero/NaN nor met by a dimensionless quantity" if unguarded else ""))
+        for d, lab in sorted(set(shape.guard_edges(cfg, dimless, False))):
+            p = edge_leads_only_to_raise(cfg, d, lab)
             ck.check(p is None, "G-DOM", f"{q}|dimensional-plus-bare-number-raises", fi.loc(cfg.nodes[d].ast), "dimensional quantity +- non-zero number raises DimensionalityError",
                      "a dimensional quantity can be added to a non-zero bare number", witness(cfg, p))
         gate = [n.id for n in cfg.nodes if n.kind == "test" and "self.dimensionality" in norm(n.ast) and "other.dimensionality" in norm(n.ast)]
-        ops = nodes_with(cfg, lambda x: isinstance(x, ast.Call) and isinstance(x.func, ast.Name) and x.func.id == "op" and "other._magnitude" in norm(x) or
-                         (isinstance(x, ast.Call) and isinstance(x.func, ast.Name) and x.func.id == "op" and "other.to(" in norm(x)))
+        reads_other = lambda x: any(isinstance(y, ast.Attribute) and y.attr in ("_magnitude", "magnitude", "m", "to") and _derives_from(defs_of(fi).roots(y.value), "other") for y in ast.walk(shape.resolve(x, fn)))
+        ops = nodes_with(cfg, lambda x: isinstance(x, ast.Call) and isinstance(x.func, ast.Name) and x.func.id == "op" and reads_other(x))
         for o in live(cfg, ops):
             p = undominated(cfg, [o], gate)
             ck.check(bool(gate) and p is None, "G-DOM", f"{q}|dimensionality-gate-dominates-combination", fi.loc(cfg.nodes[o].ast), "two quantities are only combined after the dimensionality test",
